@@ -491,6 +491,44 @@ def pickle_side(kind: str) -> JobOut:
     return JobOut(sides=sides)
 
 
+def derived_side(kind: str) -> JobOut:
+    """concrete: objects derived from an ALREADY HASHED object (tagged, untagged, axis-tagged, copied) are equal to,
+    and hash like, the same derivation of a never-hashed equal twin -- a cached hash must not travel along"""
+    import pickle
+    from pv.props.c04tags import BazAxisTag, FooTag
+    E, K = kinds()
+    cls, vary, make = K[kind]
+    derivs = {
+        "tagged": lambda x: x.tagged(FooTag()),
+        "tagged+without_tags": lambda x: x.tagged(FooTag()).without_tags(FooTag()),
+        "with_tagged_axis": lambda x: x.with_tagged_axis(0, BazAxisTag()),
+        "copy": lambda x: x.copy(),
+        "replace": lambda x: dataclasses.replace(x),
+    }
+    sides = []
+    for cfg in (0, 1, 2):
+        for dn, d in derivs.items():
+            try:
+                a, b = make(_base_vals(vary, cfg)), make(_base_vals(vary, cfg))
+                try:
+                    db = d(b)                       # twin: never hashed before the derivation
+                except (AttributeError, TypeError, IndexError, ValueError, NotImplementedError):
+                    continue                        # this kind does not offer the derivation
+                hash(a)
+                da = d(a)
+                if dn in ("tagged", "with_tagged_axis"):
+                    hash(da)                        # ... and once more down the chain
+                    da, db = d(da) if dn == "tagged" else da, d(db) if dn == "tagged" else db
+                fresh = pickle.loads(pickle.dumps(da))          # (pickling drops the hash cache: C04-1)
+                ok = (da == db) and (db == da) and hash(da) == hash(db) and hash(da) == hash(fresh)
+                sides.append(Side(f"derived-after-hash/{kind}/{dn}/cfg{cfg}", ok,
+                                  {"equal": bool(da == db), "hash_equal_twin": hash(da) == hash(db),
+                                   "hash_equal_unpickled": hash(da) == hash(fresh)}))
+            except Exception as e:  # noqa: BLE001
+                sides.append(Side(f"derived-after-hash/{kind}/{dn}/cfg{cfg}", False, f"{type(e).__name__}: {e}"))
+    return JobOut(sides=sides)
+
+
 def datawrapper() -> JobOut:
     """identity semantics of DataWrapper (documented): equal iff same object"""
     import pytato as pt
@@ -548,6 +586,7 @@ def jobs(tier: str, seed: int):
     nfields = 0
     for kind, (cls, vary, make) in K.items():
         add("pickle_side", kind=kind)
+        add("derived_side", kind=kind)
         for field, vs in vary.items():
             for vi, v in enumerate(vs):
                 if v.kind == "fixed":
